@@ -26,7 +26,7 @@ SIGS = {
     "partial_fold": [("unfolded", "T"), ("mode", "Z"), ("shape", "list Z"), ("skip_begin", "Z"), ("skip_end", "Z")],
     "partial_tensor_to_vec": [("tensor", "T"), ("skip_begin", "Z"), ("skip_end", "Z")],
     "partial_vec_to_tensor": [("matrix", "T"), ("shape", "list Z"), ("skip_begin", "Z"), ("skip_end", "Z")],
-    "matricize": [("tensor", "T"), ("row_modes", "list Z"), ("column_modes", "option (list Z)")],
+    "matricize": [("tensor", "T"), ("row_modes", "pyseq"), ("column_modes", "option pyseq")],
 }
 CORE_SIGS = {"moveaxis": [("tensor", "T"), ("source", "Z"), ("destination", "Z")]}
 ORDER = ["tensor_to_vec", "vec_to_tensor", "unfold", "fold", "partial_unfold", "partial_fold",
@@ -99,6 +99,35 @@ def tr(e, fn):
         if isinstance(e.operand, ast.Constant):
             return b, zlit(-e.operand.value), "Z"
         return b, f"(- {t})%Z", "Z"
+    if isinstance(e, ast.UnaryOp) and isinstance(e.op, ast.Not):
+        b, t = truth(e.operand, fn)
+        return b, f"(negb {t})", "bool"
+    if isinstance(e, ast.BoolOp):
+        # `a and b` / `a or b`: translated by truth value (a bool if every operand is one, else usable in a test only);
+        # Python does not evaluate the later operands when an earlier one decides, so they must not be able to raise
+        parts, allbool = [], True
+        for k_, x in enumerate(e.values):
+            b, t = truth(x, fn)
+            if b and k_ > 0:
+                raise Untranslatable("a raising expression on the right of and / or")
+            if k_ == 0:
+                b0 = b
+            parts.append(t)
+            allbool = allbool and tr(x, Fn(fn.name, list(fn.ty.items())))[2] == "bool"
+        op = "&&" if isinstance(e.op, ast.And) else "||"
+        return b0, "(" + f" {op} ".join(parts) + ")", "bool" if allbool else "truth"
+    if isinstance(e, ast.IfExp):
+        bc, tc = truth(e.test, fn)
+        b1, t1, ty1 = tr(e.body, fn)
+        b2, t2, ty2 = tr(e.orelse, fn)
+        if ty1 != ty2 or ty1 not in ("Z", "list Z", "bool"):
+            raise Untranslatable("conditional expression types")
+        if b1 or b2:                               # only the chosen branch is evaluated: a monadic if
+            v = fn.fresh()
+            return bc + [(v, f"(if {tc} then ({wrap(b1, 'Ok ' + t1)}) else ({wrap(b2, 'Ok ' + t2)}))")], v, ty1
+        return bc, f"(if {tc} then {t1} else {t2})", ty1
+    if isinstance(e, ast.Attribute) and e.attr == "ndim" and isinstance(e.value, ast.Name) and fn.ty.get(e.value.id) == "T":
+        return [], f"(py_ndim B {e.value.id})", "Z"
     if isinstance(e, ast.BinOp) and isinstance(e.op, (ast.Add, ast.Sub, ast.Mult)):
         b1, t1, ty1 = tr(e.left, fn)
         b2, t2, ty2 = tr(e.right, fn)
@@ -109,6 +138,12 @@ def tr(e, fn):
             return b1 + b2, f"({t1} ++ {t2})", "list Z"
         raise Untranslatable(f"binary operator on {ty1}, {ty2}")
     if isinstance(e, (ast.List, ast.Tuple)):
+        if len(e.elts) == 1 and isinstance(e.elts[0], ast.Name) and fn.ty.get(e.elts[0].id) == "pyseq":
+            y = e.elts[0].id
+            if getattr(fn, "int_in_handler", None) != y:
+                raise Untranslatable("a list display with an int-or-sequence element outside `except TypeError` of list(.)")
+            v = fn.fresh()
+            return [(v, f"(match {y} with PInt z => Ok [z] | PSeq _ => Err end)")], v, "list Z"
         bs, ts = [], []
         for x in e.elts:
             b, t, ty = tr(x, fn)
@@ -224,11 +259,59 @@ def tr_call(e, fn):
     if is_shape_of(e, fn):
         return [], f"(py_shape B {is_shape_of(e, fn)})", "list Z"
     if isinstance(f, ast.Name):
-        if f.id == "list" and len(e.args) == 1 and not e.keywords:
+        if f.id in ("list", "tuple") and len(e.args) == 1 and not e.keywords:
             b, t, ty = tr(e.args[0], fn)
+            if ty == "pyseq":                      # list(x) raises TypeError when x is an int
+                v = fn.fresh()
+                return b + [(v, f"(py_list {t})")], v, "list Z"
             if ty != "list Z":
                 raise Untranslatable("list() of a non-sequence")
             return b, t, ty
+        if f.id in ("min", "max") and len(e.args) == 2 and not e.keywords:
+            b1, t1, ty1 = tr(e.args[0], fn)
+            b2, t2, ty2 = tr(e.args[1], fn)
+            if ty1 != "Z" or ty2 != "Z":
+                raise Untranslatable("min / max of non-ints")
+            return b1 + b2, f"(Z.{f.id} {t1} {t2})", "Z"
+        if f.id == "len" and len(e.args) == 1 and not e.keywords:
+            base = is_shape_of(e.args[0], fn)
+            if base is not None:
+                return [], f"(py_ndim B {base})", "Z"
+            b, t, ty = tr(e.args[0], fn)
+            if ty != "list Z":
+                raise Untranslatable("len() of a non-list")
+            return b, f"(Z.of_nat (length {t}))", "Z"
+        if f.id == "isinstance" and len(e.args) == 2 and not e.keywords and isinstance(e.args[0], ast.Name):
+            x = e.args[0].id
+            ty = fn.ty.get(x)
+            cls = e.args[1]
+            names = sorted(c.id for c in (cls.elts if isinstance(cls, ast.Tuple) else [cls]) if isinstance(c, ast.Name))
+            if len(names) != (len(cls.elts) if isinstance(cls, ast.Tuple) else 1):
+                raise Untranslatable("isinstance class expression")
+            if names == ["int"]:
+                if ty == "Z":
+                    return [], "true", "bool"
+                if ty == "list Z":
+                    return [], "false", "bool"
+                if ty == "pyseq":
+                    return [], f"(match {x} with PInt _ => true | PSeq _ => false end)", "bool"
+            if names == ["list", "tuple"]:         # a sequence argument may be a list or a tuple: only the pair is decidable
+                if ty == "Z":
+                    return [], "false", "bool"
+                if ty == "list Z":
+                    return [], "true", "bool"
+                if ty == "pyseq":
+                    return [], f"(match {x} with PInt _ => false | PSeq _ => true end)", "bool"
+            raise Untranslatable(f"isinstance({x}, {names}) for {ty}")
+        if f.id == "range" and not e.keywords and len(e.args) == 2:
+            bs, ts = [], []
+            for a in e.args:
+                b, t, ty = tr(a, fn)
+                if ty != "Z":
+                    raise Untranslatable("range argument")
+                bs += b
+                ts.append(t)
+            return bs, f"(py_range3 {ts[0]} {ts[1]} (1)%Z)", "list Z"
         if f.id == "range" and not e.keywords and len(e.args) in (1, 3):
             bs, ts = [], []
             for a in e.args:
@@ -286,7 +369,7 @@ def tr_call(e, fn):
 
 def truth(e, fn):
     b, t, ty = tr(e, fn)
-    if ty == "bool":
+    if ty in ("bool", "truth"):
         return b, t
     if ty == "Z":
         return b, f"(negb (Z.eqb {t} 0))"
@@ -386,12 +469,27 @@ def block(stmts, fn, cont):
         fn.ty[x] = ty
         body = block(rest, fn, cont)
         return wrap(b, f"let {x} := {t} in\n  {body}")
-    if isinstance(s, ast.AugAssign) and isinstance(s.target, ast.Name) and isinstance(s.op, ast.Add):
+    if isinstance(s, ast.Assign) and len(s.targets) == 1 and isinstance(s.targets[0], ast.Tuple) and isinstance(s.value, ast.Tuple) \
+            and len(s.targets[0].elts) == len(s.value.elts) and all(isinstance(x, ast.Name) for x in s.targets[0].elts):
+        # a, b = e1, e2 : the right-hand sides are evaluated first (left to right), then bound
+        bs, tmp = [], []
+        for x in s.value.elts:
+            b, t, ty = tr(x, fn)
+            bs += b
+            tmp.append((t, ty))
+        names = [x.id for x in s.targets[0].elts]
+        for nme, (_, ty) in zip(names, tmp):
+            fn.ty[nme] = ty
+        body = block(rest, fn, cont)
+        pat = "'(" + ", ".join(names) + ")"
+        return wrap(bs, f"let {pat} := (" + ", ".join(t for t, _ in tmp) + f") in\n  {body}")
+    if isinstance(s, ast.AugAssign) and isinstance(s.target, ast.Name) and isinstance(s.op, (ast.Add, ast.Sub, ast.Mult)):
         x = s.target.id
         b, t, ty = tr(s.value, fn)
-        if fn.ty.get(x) != ty or ty not in ("list Z", "Z"):
+        if fn.ty.get(x) != ty or ty not in ("list Z", "Z") or (ty == "list Z" and not isinstance(s.op, ast.Add)):
             raise Untranslatable("augmented assignment types")
-        new = f"({x} ++ {t})" if ty == "list Z" else f"({x} + {t})%Z"
+        zop = {ast.Add: "+", ast.Sub: "-", ast.Mult: "*"}[type(s.op)]
+        new = f"({x} ++ {t})" if ty == "list Z" else f"({x} {zop} {t})%Z"
         body = block(rest, fn, cont)
         return wrap(b, f"let {x} := {new} in\n  {body}")
     if isinstance(s, ast.Expr) and isinstance(s.value, ast.Call) and isinstance(s.value.func, ast.Attribute) \
@@ -419,14 +517,31 @@ def block(stmts, fn, cont):
     if isinstance(s, ast.Try) and not s.orelse and not s.finalbody and s.handlers and all(ends_in_raise(h.body) and len(h.body) == 1 for h in s.handlers):
         # try: BODY / except E: raise E'(...)   -- every exception is the Err of the monad: the statements of BODY in sequence
         return block(list(s.body) + list(rest), fn, cont)
-    idiom = aslist_idiom(s, fn)
-    if idiom:
-        x, y = idiom
-        if fn.ty.get(y) != "list Z":
-            raise Untranslatable("list()/TypeError idiom on a non-sequence parameter")
-        fn.ty[x] = "list Z"
+    if isinstance(s, ast.Try) and len(s.handlers) == 1 and not s.orelse and not s.finalbody and not ends_in_raise(s.handlers[0].body):
+        # try: BODY / except E: HANDLER  ->  rcatch BODY HANDLER : every exception of BODY is caught (the monad has one Err);
+        # accepted only when BODY can raise nothing but E: a single `x = list(y)` with E = TypeError
+        h = s.handlers[0]
+        one = (len(s.body) == 1 and isinstance(s.body[0], ast.Assign) and isinstance(s.body[0].value, ast.Call)
+               and isinstance(s.body[0].value.func, ast.Name) and s.body[0].value.func.id in ("list", "tuple")
+               and len(s.body[0].value.args) == 1 and isinstance(s.body[0].value.args[0], ast.Name)
+               and isinstance(h.type, ast.Name) and h.type.id == "TypeError")
+        if not one:
+            raise Untranslatable("try / except around anything but `x = list(y)` / TypeError")
+        y = s.body[0].value.args[0].id
+        vs = assigned(s.body) + [v for v in assigned(h.body) if v not in assigned(s.body)]
+        tys0 = dict(fn.ty)
+        o1 = branch(s.body, vs, fn)
+        tys1 = dict(fn.ty)
+        fn.ty = dict(tys0)
+        fn.int_in_handler = y
+        try:
+            o2 = branch(h.body, vs, fn)
+        finally:
+            fn.int_in_handler = None
+        if {v: fn.ty.get(v) for v in vs} != {v: tys1.get(v) for v in vs}:
+            raise Untranslatable("try body and handler assign different variables / types")
         body = block(rest, fn, cont)
-        return f"let {x} := {y} in\n  {body}"
+        return f"rbind (rcatch {o1} {o2}) (fun {pattern(vs)} =>\n  {body})"
     if isinstance(s, ast.If):
         return tr_if(s, rest, fn, cont)
     raise Untranslatable("statement " + ast.dump(s)[:80])
@@ -438,8 +553,9 @@ def tr_if(s, rest, fn, cont):
     if isinstance(t, ast.Compare) and len(t.ops) == 1 and isinstance(t.ops[0], (ast.Is, ast.IsNot)) and isinstance(t.left, ast.Name) \
             and isinstance(t.comparators[0], ast.Constant) and t.comparators[0].value is None:
         x = t.left.id
-        if fn.ty.get(x) != "option (list Z)":
+        if fn.ty.get(x) not in ("option (list Z)", "option pyseq"):
             raise Untranslatable("None test on a non-optional")
+        inner_ty = fn.ty[x][len("option "):].strip("()")
         none_b, some_b = (s.body, s.orelse) if isinstance(t.ops[0], ast.Is) else (s.orelse, s.body)
         vs = [v for v in assigned(s.body) + assigned(s.orelse)]
         vs = [v for i, v in enumerate(vs) if v not in vs[:i]]
@@ -448,7 +564,7 @@ def tr_if(s, rest, fn, cont):
         for br, is_some in ((none_b, False), (some_b, True)):
             fn.ty = dict(tys0)
             if is_some:
-                fn.ty[x] = "list Z"
+                fn.ty[x] = inner_ty
             outs.append(branch(br, vs, fn))
             after.append(dict(fn.ty))
         fn.ty = dict(tys0)
@@ -461,7 +577,16 @@ def tr_if(s, rest, fn, cont):
     bc, tc = truth(t, fn)
     vs = assigned(s.body) + [v for v in assigned(s.orelse) if v not in assigned(s.body)]
     tys0 = dict(fn.ty)
-    o1 = branch(s.body, vs, fn)
+    known_int = None
+    if isinstance(t, ast.Call) and isinstance(t.func, ast.Name) and t.func.id == "isinstance" and len(t.args) == 2 \
+            and isinstance(t.args[0], ast.Name) and isinstance(t.args[1], ast.Name) and t.args[1].id == "int" and fn.ty.get(t.args[0].id) == "pyseq":
+        known_int = t.args[0].id
+    saved_h = getattr(fn, "int_in_handler", None)
+    fn.int_in_handler = known_int or saved_h
+    try:
+        o1 = branch(s.body, vs, fn)
+    finally:
+        fn.int_in_handler = saved_h
     tys1 = dict(fn.ty)
     fn.ty = dict(tys0)
     o2 = branch(s.orelse, vs, fn)
